@@ -11,7 +11,7 @@ def run_c15(run, tier, wd, binary, replay):
         md = os.path.join(wd, "mc")
         os.makedirs(md)
         vlib.stage_specs(md, ["Ordering.tla", "Config.tla", "MCConfig.tla"])
-        mo = 3 if tier == "quick" else 4
+        mo = 3          # (4 options over 50 option records exceed TLC's set-size limit; thorough deepens the real runs instead)
         vlib.write_cfg(os.path.join(md, "c.cfg"), constants=dict(Scenarios="{}", Paths=PATHS, FixF5="TRUE", MaxOpts=mo),
                        init="MCInit", next_="Next", invariants=["C15_AddKeeps", "C15_Fold", "C15_SingleSupplierVisible"],
                        properties=["C15_AddMonotone"])
@@ -27,7 +27,13 @@ def run_c15(run, tier, wd, binary, replay):
         if tier == "thorough":
             scs += [dict(id="d%d" % i, opts=o) for i, o in enumerate(cl.all_sequences(3, cl.KEYSETS[:2], vals=(1,)))]
         scs += [dict(id="r%d" % i, opts=cl.rand_sequence(rng, 6)) for i in range(600 if tier == "quick" else 8000)]
-    th = threading.Thread(target=mc)
+    mc_err = []
+    def mc_guarded():
+        try:
+            mc()
+        except Exception as e:
+            mc_err.append(e)
+    th = threading.Thread(target=mc_guarded)
     if not replay:
         th.start()
     bd = os.path.join(wd, "b")
@@ -65,6 +71,8 @@ def run_c15(run, tier, wd, binary, replay):
     run.sample(json.loads(lines[len(lines) // 2]))
     if not replay:
         th.join()
+        if mc_err:
+            raise mc_err[0]
     run.cov["rule"] = ("scenario = sequence of application options (config file / add loader / set loader; raw, args and file loaders) "
                        "each supplying a marker value for a subset of the leaf paths; non-trivial = at least two options")
     run.assumptions += ["documents are kind-consistent key trees (viper's handling of a scalar overriding a map is third-party behaviour)",
@@ -97,7 +105,13 @@ def run_c16(run, tier, wd, binary, replay):
         scs = [json.load(open(replay))["replay"]["scenario"]]
     else:
         scs = pl.scenarios(rng, 500 if tier == "quick" else 8000, "C16")
-    th = threading.Thread(target=mc)
+    mc_err = []
+    def mc_guarded():
+        try:
+            mc()
+        except Exception as e:
+            mc_err.append(e)
+    th = threading.Thread(target=mc_guarded)
     if not replay:
         th.start()
     bd = os.path.join(wd, "b")
@@ -129,6 +143,8 @@ def run_c16(run, tier, wd, binary, replay):
         t.join()
     if not replay:
         th.join()
+        if mc_err:
+            raise mc_err[0]
     if errs:
         raise errs[0]
     drift = 0
